@@ -9,10 +9,12 @@
 (*   Coordinated = TRUE  : a rotation is applied at both ends in one step (rekey message)   *)
 (*   TearDown    = TRUE  : a unilateral rotation closes the session instead.                *)
 (* The code is KdfUsesTime = TRUE, Coordinated = FALSE, TearDown = FALSE.                   *)
-EXTENDS Integers, Sequences, TLC
+EXTENDS Integers, Sequences, FiniteSets, TLC
 CONSTANTS IntA, IntB,        \* rotation intervals of the two nodes
           Skew,              \* B registers the handshake Skew time units after A
-          MaxNow, KdfUsesTime, Coordinated, TearDown
+          MaxNow, KdfUsesTime, Coordinated, TearDown,
+          ReHandshakes,      \* how many re-handshakes over the open connection a behaviour may contain (request_chunk does one before a fetch)
+          IgnoreReHandshakeWhileOpen  \* deviation: a handshake for a peer whose session is open is answered "fine" without being processed
 VARIABLES now, ctr, last, key, open, hist
 vars == <<now, ctr, last, key, open, hist>>
 Nodes == {"a", "b"}
@@ -35,13 +37,24 @@ Tick(n) ==
               /\ key' = [key EXCEPT ![n] = Kdf(ctr[n] + 1, now)]
               /\ open' = IF TearDown THEN FALSE ELSE open
               /\ UNCHANGED now
+\* one end handshakes again and reconnects while the old connection is still up (Node::request_chunk: perform_handshake, connect_peer):
+\* both ends derive the handshake key again and register it -- the session is re-established on one key, whatever drift came before
+NRehs == Cardinality({i \in 1..Len(hist) : hist[i].op = "rehs"})
+ReHandshake(n) ==
+    /\ open /\ NRehs < ReHandshakes
+    /\ hist' = Append(hist, [op |-> "rehs", n |-> n])
+    /\ IF IgnoreReHandshakeWhileOpen THEN UNCHANGED <<now, ctr, last, key, open>>
+       ELSE /\ key' = [m \in Nodes |-> <<0, 0>>] /\ ctr' = [m \in Nodes |-> 0] /\ last' = [m \in Nodes |-> now] /\ UNCHANGED <<now, open>>
 Advance == /\ now' = now + 1 /\ hist' = Append(hist, [op |-> "adv"]) /\ UNCHANGED <<ctr, last, key, open>>
-Next == Advance \/ \E n \in Nodes : Tick(n)
+Next == Advance \/ \E n \in Nodes : (Tick(n) \/ ReHandshake(n))
 Spec == Init /\ [][Next]_vars
-View == <<now, ctr, last, key, open>>
+View == <<now, ctr, last, key, open, IF hist = <<>> THEN "none" ELSE hist[Len(hist)].op, NRehs>>
 Bound == now <= MaxNow
 \* [C39] a session never stays open while its two ends hold different keys
 C39_SameKeyWhileOpen == open => key["a"] = key["b"]
+\* [C39] "... or the session is torn down and re-established": a re-handshake over the open connection leaves both ends on one key
+C39_ReHandshakeConverges == (hist # <<>> /\ hist[Len(hist)].op = "rehs" /\ open) => key["a"] = key["b"]
+Reach_ReHandshakeAfterDrift == ~(open /\ key["a"] # key["b"] /\ NRehs < ReHandshakes)    \* a re-handshake is possible in a drifted state
 Reach_BothRotatedEqually == ~(ctr["a"] = ctr["b"] /\ ctr["a"] > 0)
 Reach_Unilateral == ~(ctr["a"] # ctr["b"])
 =============================================================================
